@@ -345,8 +345,9 @@ Proof.
   pose proof (akey_prefix_le _ TA) as PL. pose proof TA as [T _]. rewrite max_tag_value in T.
   (* cryptex in use? *)
   apply h_bind with (R := fun (iu : bool) w => (iu = true -> s_cryptex st = true /\ hdr_x pkt = 1 /\ cryptex_profile pkt) /\ I (eq d0) w).
-  { destruct (s_cryptex st && (hdr_x pkt =? 1)) eqn:EC.
-    - apply andb_true_iff in EC. destruct EC as [EC1 EC2]. apply Z.eqb_eq in EC2. specialize (X4 EC2).
+  { destruct (s_cryptex st && negb (Z.land (s_rtp_serv st) sec_serv_conf_c =? 0) && (hdr_x pkt =? 1)) eqn:EC.
+    - apply andb_true_iff in EC. destruct EC as [EC1 EC2]. apply andb_true_iff in EC1. destruct EC1 as [EC1 _].
+      apply Z.eqb_eq in EC2. specialize (X4 EC2).
       eapply h_bind; [apply h_rd_src; lia|intros h]. apply h_pure; intros (dd & <- & _ & ->).
       apply h_ret. intros w HI. split; [|exact HI]. intros HP. split; [exact EC1|]. split; [exact EC2|].
       change (zn 4) with 4%nat in HP. rewrite be16_slice4_0 in HP.
